@@ -151,6 +151,16 @@ func (e *exec) judgeImage(o Op, im *image, lower, upper *tsdbmodel.Model) {
 		}
 		defer os.RemoveAll(dir)
 	}
+	if e.prop == "C09" {
+		// retention profile: the reload inside this open is judged by the retention monitor (events); content is not
+		db, _, err := e.open(dir)
+		if err != nil {
+			e.fail("crash-reopen", "reopen-failed:"+siteClass(im.site), "%s: reopen failed: %v", where, err)
+			return
+		}
+		db.Close()
+		return
+	}
 	tornWAL := im.op == "torn" && strings.HasPrefix(im.path, "wal/")
 	if tornWAL {
 		// known finding: WAL repair path skips the WBL replay
